@@ -1,6 +1,8 @@
 package v2
 
 import (
+	"os"
+	"strings"
 	"sync"
 	"time"
 
@@ -133,6 +135,18 @@ func Run(ctx *vrun.Ctx) error {
 	ctx.Logf("reference endpoint pinned by the BIP324 vectors")
 	st := &stats{}
 	js := jobs(ctx)
+	if only := os.Getenv("VERIF_V2_JOBS"); only != "" { // development aid: run a subset of the jobs
+		var sel []*job
+		for _, j := range js {
+			for _, n := range strings.Split(only, ",") {
+				if j.name == n {
+					sel = append(sel, j)
+				}
+			}
+		}
+		js = sel
+		ctx.Assume("PARTIAL RUN: VERIF_V2_JOBS=" + only)
+	}
 	// at most three TLC instances at a time
 	sem := make(chan struct{}, 3)
 	errs := make([]error, len(js))
